@@ -138,5 +138,18 @@ PROPS["C06"] = {
     "replay_help": "case.ops is the operation list (groups are numbered); correspondence_code k = the first operation (1-based) after which positions / consume result / readability differ from the model; oracle_code k = first operation after which the implementation's own observations violate ordering, monotonicity, the ack window, the bound of the queue ack, or readability above the queue ack",
 }
 
+PROPS["C05"] = {
+    "harness": "c05",
+    "props_files": ["C05/Props.v"],
+    "n": {"quick": 100, "thorough": 1500},
+    "timeout": {"quick": 1200, "thorough": 3400},
+    "level_text": "Theorem (Coq, no axioms): refinement of the queue (linear data addresses with page roll-over, index entries, persisted meta, volatile cursor) to an abstract log: for EVERY history of appends of any size up to the page size, crashes at any store of an append (torn copy, after the copy, inside or after the index entry, after the meta store) and reopens, every message of the log is read back under its own sequence number with its own content, sequence numbers are dense, and the log only grows at its end. Appends are serialised (the fix: commit), so interleavings of concurrent appenders collapse to sequential histories. Tied to the code by replaying generated histories on a real queue directory whose mapped pages are wrapped so that the process is killed between the individual stores, then reopening and reading every sequence.",
+    "level_note": "Trusted: store order to the shared mapping is program order (process death, not power loss); the model abstracts bytes to message identities (the harness compares the bytes and reports which message was read); free-running concurrency is exercised only through the forced hold of one appender between alloc and copy.",
+    "rule": "histories of 3-25 operations: appends of 1-64 B, 1 KB-300 KB, and (a few per run) 60-128 MiB messages aimed at the page remainder (fits exactly / one byte too many), crashes before each of the five stores of an append, in the middle of the copy and after the meta store, reopens; plus overlapping-appender schedules (A held between alloc and copy while B appends, then reopen + append); non-trivial = >= 3 appends with >= 2 sizes and >= 1 crash; distinct = different JSON",
+    "trusted": ["partial: free-running interleavings of the real code are sampled only through the forced schedule; the all-schedules claim rests on the single mutex held over Put (checked by the schedule being infeasible: B cannot complete inside A's window)"],
+    "assumptions": ["messages have at least one byte in the model (empty messages are not generated)", "the queue's acknowledged position stays below the messages read (no GC in these histories; C06 covers it)"],
+    "replay_help": "case.ops: put(id,len) / crash(id,len,point) / reopen; correspondence_code 1 = appended position after some operation or a Get result differs from the model; oracle_code 1 = the reads are not exactly the abstract log (a completed append unreadable, altered, or an extra sequence readable)",
+}
+
 for _pid in PROPS:
     NOT_APPLICABLE.pop(_pid, None)
